@@ -1,13 +1,51 @@
-(* C06, PivotInitialize: the pivoting part of the circuit is a classical reversible circuit (X, CX, multi-controlled X).
-   Run backwards after the dense preparation it carries the amplitude sitting on the image of a key back to the key.
-   The theorem is for every classical circuit and every finite superposition; the harness checks on each instance, inside
-   Coq, that the dense vector the code prepares is indexed by the images [scls (rev Q) key] of the circuit the code emitted. *)
+(* C06, PivotInitialize: the pivoting part of the circuit is a reversible circuit whose gates act on states by permuting
+   the basis states: X, CX, multi-controlled X and - with auxiliary qubits - blocks  ladder of relative-phase Toffolis ;
+   CX from the top ancilla ; the reversed ladder  (the phases of the ladder cancel for EVERY content of the ancillas).
+   Run after the dense preparation it carries the amplitude sitting on the image of a key back to the key.
+   The theorems are for every such circuit and every finite superposition; the harness checks on each instance, inside
+   Coq, that the dense vector the code prepares is indexed by the images [pcls (rev Q) key] of the circuit the code emitted. *)
 From Coq Require Import Reals Lra List Bool Arith Lia NArith FunctionalExtensionality.
 From Coquelicot Require Import Complex.
-From QV Require Import Sem Mat2 Toff2 Chain Vchain Cvoqram McxModel McxMulti IrProps FnPointsModel FnSem.
+From QV Require Import Sem Mat2 Toff2 Chain Vchain Cvoqram McxModel McxMulti IrProps FnPointsModel FnSem CvoModel CvoGates CvoAux.
 Import ListNotations.
 Open Scope nat_scope.
 
+(* ---------- any alphabet of gates that permute the basis states by an involution ---------- *)
+Section Gen.
+Variable G : Type.
+Variable gapp : G -> state -> state.
+Variable gperm : G -> asg -> asg.
+Variable ok : G -> Prop.
+Hypothesis app_perm : forall g psi, ok g -> gapp g psi = fun b => psi (gperm g b).
+Hypothesis perm_invol : forall g b, ok g -> gperm g (gperm g b) = b.
+Definition grun (P : list G) (psi : state) : state := fold_left (fun s g => gapp g s) P psi.
+Definition gcls (P : list G) (b : asg) : asg := fold_left (fun y g => gperm g y) P b.
+Lemma gcls_app P Q b : gcls (P ++ Q) b = gcls Q (gcls P b).
+Proof. unfold gcls. now rewrite fold_left_app. Qed.
+
+Theorem grun_den P : Forall ok P -> forall l, grun P (den l) = den (map (fun e => (fst e, gcls P (snd e))) l).
+Proof.
+  induction P as [|g P IH]; intros HW l.
+  - simpl. f_equal. induction l as [|[a B] l IHl]; simpl; auto. now rewrite <- IHl.
+  - inversion HW; subst. cbn [grun fold_left]. fold (grun P). rewrite app_perm by auto.
+    rewrite (den_perm (gperm g)) by (intros; now apply perm_invol).
+    rewrite IH by auto. f_equal. rewrite map_map. reflexivity.
+Qed.
+Lemma gcls_rev_cancel Q b : Forall ok Q -> gcls Q (gcls (rev Q) b) = b.
+Proof.
+  revert b. induction Q as [|g Q IH]; intros b W. reflexivity.
+  inversion W; subst. cbn [rev]. rewrite gcls_app. cbn [gcls fold_left]. fold (gcls Q).
+  rewrite perm_invol by auto. now apply IH.
+Qed.
+Theorem gen_cert Q (l : list entry) : Forall ok Q ->
+  grun Q (den (map (fun e => (fst e, gcls (rev Q) (snd e))) l)) = den l.
+Proof.
+  intros HW. rewrite grun_den by auto. rewrite map_map. f_equal.
+  rewrite <- (map_id l) at 2. apply map_ext. intros [a B]. cbn [fst snd]. now rewrite gcls_rev_cancel.
+Qed.
+End Gen.
+
+(* ---------- X, CX, multi-controlled X ---------- *)
 Definition sclassical (g : sgate) : Prop := match g with SU _ _ => False | _ => True end.
 Definition sclassicalb (g : sgate) : bool := match g with SU _ _ => false | _ => true end.
 Definition sperm (g : sgate) (b : asg) : asg :=
@@ -18,8 +56,6 @@ Definition sperm (g : sgate) (b : asg) : asg :=
   | SMCX cs t => if allq cs b then flipq t b else b
   end.
 Definition scls (P : list sgate) (b : asg) : asg := fold_left (fun y g => sperm g y) P b.
-Lemma scls_app P Q b : scls (P ++ Q) b = scls Q (scls P b).
-Proof. unfold scls. now rewrite fold_left_app. Qed.
 
 Lemma allq_flipq cs t b : ~ In t cs -> allq cs (flipq t b) = allq cs b.
 Proof.
@@ -43,36 +79,21 @@ Proof.
   - destruct (allq cs b); simpl. apply app1_X. apply app1_I2.
 Qed.
 
-(* a classical circuit moves the basis states of a finite superposition *)
-Theorem srun_den P : Forall sclassical P -> Forall swf P -> forall l,
-  srun P (den l) = den (map (fun e => (fst e, scls P (snd e))) l).
+Definition sok (g : sgate) : Prop := sclassical g /\ swf g.
+Theorem srun_den P : Forall sok P -> forall l, srun P (den l) = den (map (fun e => (fst e, scls P (snd e))) l).
 Proof.
-  induction P as [|g P IH]; intros HC HW l.
-  - simpl. f_equal. induction l as [|[a B] l IHl]; simpl; auto. now rewrite <- IHl.
-  - inversion HC; inversion HW; subst. rewrite srun_cons, sapp_perm by auto.
-    rewrite (den_perm (sperm g)) by (intros; now apply sperm_invol).
-    rewrite IH by auto. f_equal. rewrite map_map. reflexivity.
+  intros H l. apply (grun_den sgate sapp sperm sok); auto.
+  - intros g psi [C _]. now apply sapp_perm.
+  - intros g b [_ W]. now apply sperm_invol.
 Qed.
-Lemma scls_rev_cancel Q b : Forall swf Q -> scls Q (scls (rev Q) b) = b.
-Proof.
-  revert b. induction Q as [|g Q IH]; intros b W. reflexivity.
-  inversion W; subst. cbn [rev]. rewrite scls_app. cbn [scls fold_left]. fold (scls Q).
-  rewrite sperm_invol by auto. now apply IH.
-Qed.
-
-(* Q = the pivoting gates as they stand in the final circuit (after the dense preparation) *)
-Theorem pivot_cert Q (l : list entry) : Forall sclassical Q -> Forall swf Q ->
+Theorem pivot_cert Q (l : list entry) : Forall sok Q ->
   srun Q (den (map (fun e => (fst e, scls (rev Q) (snd e))) l)) = den l.
 Proof.
-  intros HC HW. rewrite srun_den by auto. rewrite map_map. f_equal.
-  rewrite <- (map_id l) at 2. apply map_ext. intros [a B]. cbn [fst snd]. now rewrite scls_rev_cancel.
+  intros H. apply (gen_cert sgate sapp sperm sok); auto.
+  - intros g psi [C _]. now apply sapp_perm.
+  - intros g b [_ W]. now apply sperm_invol.
 Qed.
-(* and a prepared dense state of that form, whatever prepared it, is turned into the sparse state *)
-Corollary pivot_final Q l (dense : state) : Forall sclassical Q -> Forall swf Q ->
-  dense = den (map (fun e => (fst e, scls (rev Q) (snd e))) l) -> srun Q dense = den l.
-Proof. intros HC HW ->. now apply pivot_cert. Qed.
 
-(* executable side conditions *)
 Definition swfb (g : sgate) : bool :=
   match g with SX _ | SU _ _ => true | SCX c t => negb (Nat.eqb c t) | SMCX cs t => negb (existsb (Nat.eqb t) cs) end.
 Lemma swfb_ok g : swfb g = true -> swf g.
@@ -84,10 +105,86 @@ Proof.
 Qed.
 Lemma sclassicalb_ok g : sclassicalb g = true -> sclassical g.
 Proof. destruct g; simpl; auto; discriminate. Qed.
-Theorem pivot_cert_b Q (l : list entry) : forallb sclassicalb Q = true -> forallb swfb Q = true ->
+Definition sokb (g : sgate) : bool := sclassicalb g && swfb g.
+Lemma sokb_ok g : sokb g = true -> sok g.
+Proof. unfold sokb. intros H. apply andb_true_iff in H as [H1 H2]. split. now apply sclassicalb_ok. now apply swfb_ok. Qed.
+Theorem pivot_cert_b Q (l : list entry) : forallb sokb Q = true ->
   srun Q (den (map (fun e => (fst e, scls (rev Q) (snd e))) l)) = den l.
 Proof.
-  intros HC HW. apply pivot_cert; apply Forall_forall; intros g Hg.
-  - apply sclassicalb_ok. rewrite forallb_forall in HC. auto.
-  - apply swfb_ok. rewrite forallb_forall in HW. auto.
+  intros H. apply pivot_cert. apply Forall_forall. intros g Hg. apply sokb_ok. rewrite forallb_forall in H. auto.
+Qed.
+
+(* ---------- with auxiliary qubits: blocks  ladder ; CX top -> u ; reversed ladder ---------- *)
+Inductive pgate := PS (g : sgate) | PB (P : list tri) (top u : nat).
+Definition papp (g : pgate) (psi : state) : state :=
+  match g with
+  | PS s => sapp s psi
+  | PB P top u => mrun (rev P) (sapp (SCX top u) (mrun P psi))
+  end.
+Definition pperm (g : pgate) (x : asg) : asg :=
+  match g with
+  | PS s => sperm s x
+  | PB P top u => if get (fwd P x) top then flipq u x else x
+  end.
+Definition pok (g : pgate) : Prop :=
+  match g with PS s => sok s | PB P top u => Forall (twf u) P /\ top <> u end.
+Definition prun (Q : list pgate) (psi : state) : state := fold_left (fun s g => papp g s) Q psi.
+Definition pcls (Q : list pgate) (x : asg) : asg := fold_left (fun y g => pperm g y) Q x.
+
+Lemma block_sem P top u psi : Forall (twf u) P ->
+  mrun (rev P) (sapp (SCX top u) (mrun P psi)) = fun x => psi (if get (fwd P x) top then flipq u x else x).
+Proof.
+  intros W.
+  assert (E : sapp (SCX top u) (mrun P psi) = fun x => if get x top then app1 Xm u (mrun P psi) x else mrun P psi x).
+  { apply functional_extensionality; intros x. cbn [sapp]. unfold appf. destruct (get x top); simpl; auto. apply app1_I2. }
+  rewrite E, (conj_cu u top Xm P psi W). apply functional_extensionality; intros x.
+  destruct (get (fwd P x) top); auto. apply app1_X.
+Qed.
+Lemma fwd_flipq u P x : Forall (twf u) P -> fwd P (flipq u x) = flipq u (fwd P x).
+Proof.
+  revert x. induction P as [|[[a b] t] P IH]; intros x W. reflexivity.
+  inversion W as [|? ? Hg WP]; subst. simpl in Hg. destruct Hg as [_ [_ [Ha [Hb Ht]]]].
+  cbn [fwd fold_left tperm]. fold (fwd P). unfold flipq at 1. rewrite rccx_perm_upd by auto.
+  rewrite <- (rccx_perm_get a b t u x Ht). fold (flipq u (rccx_perm a b t x)). now apply IH.
+Qed.
+Lemma pperm_invol g x : pok g -> pperm g (pperm g x) = x.
+Proof.
+  destruct g as [s|P top u]; cbn [pok pperm].
+  - intros [_ W]. now apply sperm_invol.
+  - intros [W Htu]. destruct (get (fwd P x) top) eqn:E; [|now rewrite E].
+    rewrite fwd_flipq by auto. rewrite flq_other, E by auto. apply flipq_flipq.
+Qed.
+Lemma papp_perm g psi : pok g -> papp g psi = fun x => psi (pperm g x).
+Proof.
+  destruct g as [s|P top u]; cbn [pok papp pperm].
+  - intros [C _]. now apply sapp_perm.
+  - intros [W _]. now apply block_sem.
+Qed.
+
+Theorem pivot_aux_cert Q (l : list entry) : Forall pok Q ->
+  prun Q (den (map (fun e => (fst e, pcls (rev Q) (snd e))) l)) = den l.
+Proof.
+  intros H. apply (gen_cert pgate papp pperm pok); auto.
+  - intros g psi Hg. now apply papp_perm.
+  - intros g b Hg. now apply pperm_invol.
+Qed.
+
+Definition twfb (u : nat) (g : tri) : bool :=
+  let '(a, b, t) := g in negb (Nat.eqb a t) && negb (Nat.eqb b t) && negb (Nat.eqb a u) && negb (Nat.eqb b u) && negb (Nat.eqb t u).
+Lemma twfb_ok u g : twfb u g = true -> twf u g.
+Proof.
+  destruct g as [[a b] t]. unfold twfb, twf. rewrite !andb_true_iff, !negb_true_iff, !Nat.eqb_neq. tauto.
+Qed.
+Definition pokb (g : pgate) : bool :=
+  match g with PS s => sokb s | PB P top u => forallb (twfb u) P && negb (Nat.eqb top u) end.
+Lemma pokb_ok g : pokb g = true -> pok g.
+Proof.
+  destruct g as [s|P top u]; cbn [pokb pok]. apply sokb_ok.
+  rewrite andb_true_iff, negb_true_iff, Nat.eqb_neq. intros [H1 H2]. split; auto.
+  apply Forall_forall. intros g Hg. apply twfb_ok. rewrite forallb_forall in H1. auto.
+Qed.
+Theorem pivot_aux_cert_b Q (l : list entry) : forallb pokb Q = true ->
+  prun Q (den (map (fun e => (fst e, pcls (rev Q) (snd e))) l)) = den l.
+Proof.
+  intros H. apply pivot_aux_cert. apply Forall_forall. intros g Hg. apply pokb_ok. rewrite forallb_forall in H. auto.
 Qed.
